@@ -12,22 +12,6 @@ def Modify (origin : String) (target : String) : Option (String) := do
   else do
       some target
 
-def UpdateNFT_token_Uri_1 (token_Uri : String) (tokenURI : String) : Option (String) := do
-  let t1 ← Modify token_Uri tokenURI
-  some t1
-
-def UpdateNFT_token_UriHash_1 (token_UriHash : String) (tokenURIHash : String) : Option (String) := do
-  let t1 ← Modify token_UriHash tokenURIHash
-  some t1
-
-def UpdateNFT_nftMetadata_Name_1 (nftMetadata_Name : String) (tokenNm : String) : Option (String) := do
-  let t1 ← Modify nftMetadata_Name tokenNm
-  some t1
-
-def UpdateNFT_nftMetadata_Data_1 (nftMetadata_Data : String) (tokenData : String) : Option (String) := do
-  let t1 ← Modify nftMetadata_Data tokenData
-  some t1
-
 /-- rejects when true: `denom.UpdateRestricted` -/
 def UpdateNFT_guard_1 (denom_UpdateRestricted : Bool) : Option (Bool) := do
   some denom_UpdateRestricted
@@ -40,11 +24,27 @@ def UpdateNFT_cond_2 (tokenURI : String) (tokenURIHash : String) (tokenNm : Stri
   let t7 ← (if t5 then (do let t6 ← Modified tokenData; some (!t6)) else some false)
   some t7
 
+def UpdateNFT_token_Uri_1 (token_Uri : String) (tokenURI : String) : Option (String) := do
+  let t1 ← Modify token_Uri tokenURI
+  some t1
+
+def UpdateNFT_token_UriHash_1 (token_UriHash : String) (tokenURIHash : String) : Option (String) := do
+  let t1 ← Modify token_UriHash tokenURIHash
+  some t1
+
 /-- branch condition: `types.Modified(tokenNm) || types.Modified(tokenData)` -/
 def UpdateNFT_cond_3 (tokenNm : String) (tokenData : String) : Option (Bool) := do
   let t1 ← Modified tokenNm
   let t3 ← (if t1 then some true else (do let t2 ← Modified tokenData; some t2))
   some t3
+
+def UpdateNFT_nftMetadata_Name_1 (nftMetadata_Name : String) (tokenNm : String) : Option (String) := do
+  let t1 ← Modify nftMetadata_Name tokenNm
+  some t1
+
+def UpdateNFT_nftMetadata_Data_1 (nftMetadata_Data : String) (tokenData : String) : Option (String) := do
+  let t1 ← Modify nftMetadata_Data tokenData
+  some t1
 
 def TransferOwnership_tokenChanged_1 (tokenURI : String) (tokenURIHash : String) : Option (Bool) := do
   let t1 ← Modified tokenURI
@@ -56,22 +56,6 @@ def TransferOwnership_tokenMetadataChanged_1 (tokenNm : String) (tokenData : Str
   let t3 ← (if t1 then some true else (do let t2 ← Modified tokenData; some t2))
   some t3
 
-def TransferOwnership_token_Uri_1 (token_Uri : String) (tokenURI : String) : Option (String) := do
-  let t1 ← Modify token_Uri tokenURI
-  some t1
-
-def TransferOwnership_token_UriHash_1 (token_UriHash : String) (tokenURIHash : String) : Option (String) := do
-  let t1 ← Modify token_UriHash tokenURIHash
-  some t1
-
-def TransferOwnership_nftMetadata_Name_1 (nftMetadata_Name : String) (tokenNm : String) : Option (String) := do
-  let t1 ← Modify nftMetadata_Name tokenNm
-  some t1
-
-def TransferOwnership_nftMetadata_Data_1 (nftMetadata_Data : String) (tokenData : String) : Option (String) := do
-  let t1 ← Modify nftMetadata_Data tokenData
-  some t1
-
 /-- rejects when true: `denom.UpdateRestricted && (tokenChanged || tokenMetadataChanged)` -/
 def TransferOwnership_guard_1 (denom_UpdateRestricted : Bool) (tokenChanged : Bool) (tokenMetadataChanged : Bool) : Option (Bool) := do
   some (denom_UpdateRestricted && (tokenChanged || tokenMetadataChanged))
@@ -80,9 +64,25 @@ def TransferOwnership_guard_1 (denom_UpdateRestricted : Bool) (tokenChanged : Bo
 def TransferOwnership_guard_2 (tokenChanged : Bool) (tokenMetadataChanged : Bool) : Option (Bool) := do
   some ((!tokenChanged) && (!tokenMetadataChanged))
 
+def TransferOwnership_token_Uri_1 (token_Uri : String) (tokenURI : String) : Option (String) := do
+  let t1 ← Modify token_Uri tokenURI
+  some t1
+
+def TransferOwnership_token_UriHash_1 (token_UriHash : String) (tokenURIHash : String) : Option (String) := do
+  let t1 ← Modify token_UriHash tokenURIHash
+  some t1
+
 /-- branch condition: `tokenMetadataChanged` -/
 def TransferOwnership_cond_3 (tokenMetadataChanged : Bool) : Option (Bool) := do
   some tokenMetadataChanged
+
+def TransferOwnership_nftMetadata_Name_1 (nftMetadata_Name : String) (tokenNm : String) : Option (String) := do
+  let t1 ← Modify nftMetadata_Name tokenNm
+  some t1
+
+def TransferOwnership_nftMetadata_Data_1 (nftMetadata_Data : String) (tokenData : String) : Option (String) := do
+  let t1 ← Modify nftMetadata_Data tokenData
+  some t1
 
 /-- rejects when true: `denom.MintRestricted && denom.Creator != sender.String()` -/
 def MintNFT_guard_1 (denom_MintRestricted : Bool) (denom_Creator : String) (read_sender_String : String) : Option (Bool) := do
@@ -100,6 +100,6 @@ def Authorize_guard_1 (read_owner_Equals_k_nk_GetOwner_ctx_denomID_tokenID : Boo
 def untranslated : List String := []
 
 /-- names of the translated definitions -/
-def translated : List String := ["Modified(target)", "Modify(origin,target)", "UpdateNFT_token_Uri_1(token_Uri,tokenURI)", "UpdateNFT_token_UriHash_1(token_UriHash,tokenURIHash)", "UpdateNFT_nftMetadata_Name_1(nftMetadata_Name,tokenNm)", "UpdateNFT_nftMetadata_Data_1(nftMetadata_Data,tokenData)", "UpdateNFT_guard_1(denom_UpdateRestricted)", "UpdateNFT_cond_2(tokenURI,tokenURIHash,tokenNm,tokenData)", "UpdateNFT_cond_3(tokenNm,tokenData)", "TransferOwnership_tokenChanged_1(tokenURI,tokenURIHash)", "TransferOwnership_tokenMetadataChanged_1(tokenNm,tokenData)", "TransferOwnership_token_Uri_1(token_Uri,tokenURI)", "TransferOwnership_token_UriHash_1(token_UriHash,tokenURIHash)", "TransferOwnership_nftMetadata_Name_1(nftMetadata_Name,tokenNm)", "TransferOwnership_nftMetadata_Data_1(nftMetadata_Data,tokenData)", "TransferOwnership_guard_1(denom_UpdateRestricted,tokenChanged,tokenMetadataChanged)", "TransferOwnership_guard_2(tokenChanged,tokenMetadataChanged)", "TransferOwnership_cond_3(tokenMetadataChanged)", "MintNFT_guard_1(denom_MintRestricted,denom_Creator,read_sender_String)", "TransferDenomOwner_guard_1(read_srcOwner_String,denom_Creator)", "Authorize_guard_1(read_owner_Equals_k_nk_GetOwner_ctx_denomID_tokenID)"]
+def translated : List String := ["Modified(target)", "Modify(origin,target)", "UpdateNFT_guard_1(denom_UpdateRestricted)", "UpdateNFT_cond_2(tokenURI,tokenURIHash,tokenNm,tokenData)", "UpdateNFT_token_Uri_1(token_Uri,tokenURI)", "UpdateNFT_token_UriHash_1(token_UriHash,tokenURIHash)", "UpdateNFT_cond_3(tokenNm,tokenData)", "UpdateNFT_nftMetadata_Name_1(nftMetadata_Name,tokenNm)", "UpdateNFT_nftMetadata_Data_1(nftMetadata_Data,tokenData)", "TransferOwnership_tokenChanged_1(tokenURI,tokenURIHash)", "TransferOwnership_tokenMetadataChanged_1(tokenNm,tokenData)", "TransferOwnership_guard_1(denom_UpdateRestricted,tokenChanged,tokenMetadataChanged)", "TransferOwnership_guard_2(tokenChanged,tokenMetadataChanged)", "TransferOwnership_token_Uri_1(token_Uri,tokenURI)", "TransferOwnership_token_UriHash_1(token_UriHash,tokenURIHash)", "TransferOwnership_cond_3(tokenMetadataChanged)", "TransferOwnership_nftMetadata_Name_1(nftMetadata_Name,tokenNm)", "TransferOwnership_nftMetadata_Data_1(nftMetadata_Data,tokenData)", "MintNFT_guard_1(denom_MintRestricted,denom_Creator,read_sender_String)", "TransferDenomOwner_guard_1(read_srcOwner_String,denom_Creator)", "Authorize_guard_1(read_owner_Equals_k_nk_GetOwner_ctx_denomID_tokenID)"]
 
 end Irismod.Gen.PureNft
